@@ -1,5 +1,7 @@
 import Audit.Tool
 import Adb.Props.C16
 import Adb.Lemmas.Labels
+import Adb.Props.C16Parse
 #audit_module Adb.Props.C16
 #audit_module Adb.Lemmas.Labels
+#audit_module Adb.Props.C16Parse
